@@ -1014,6 +1014,13 @@ class Body:
                         if kk and kk[0] == 'v' and self._BRANCH_MAP.get(kk[1]):
                             bm = self._BRANCH_MAP[kk[1]]
                             new = ('v', bm, kk[2] if bm == 'Continue' and len(kk) > 2 else None)
+                if new is None and t.get('name') == 'from_residual' and d['l'] in rel:
+                    # `?` on a failure: the value built is the failure variant of the function's own return type
+                    sty = t.get('self_ty') or ''
+                    if sty.startswith('std::result::Result<') or sty.startswith('core::result::Result<'):
+                        new = ('v', 'Err', None)
+                    elif sty.startswith('std::option::Option<') or sty.startswith('core::option::Option<'):
+                        new = ('v', 'None', None)
                 cm = self._comb_map(t) if (new is None and t['args'] and d['l'] in rel) else None
                 if cm is not None:
                     a = t['args'][0]
